@@ -436,33 +436,39 @@ func CheckHooks(us *broker.UpState, send []HookChunk, acks []iscp.UpstreamChunkR
 			return &Finding{"a transmitted chunk was announced to the send hook a number of times other than once", "sendhook-count", map[string]any{"seq": s, "times": seen[s]}}
 		}
 	}
-	type rk struct {
-		seq  uint32
+	// Per sequence number: the broker may have sent the result more than once (duplicated acks). The statement asks
+	// for each result to be reported once; a duplicate may be reported again or not at all (it may arrive after the
+	// drain has finished). Judged: at least one and at most as many reports as results sent, each with a code and
+	// string the broker really sent for that sequence number.
+	type rv struct {
 		code message.ResultCode
 		str  string
 	}
-	want := map[rk]int{}
+	sent := map[uint32]int{}
+	vals := map[uint32]map[rv]bool{}
 	for _, a := range us.AcksSent {
 		if !a.OK {
 			continue
 		}
 		for _, r := range a.Results {
-			want[rk{r.SequenceNumber, r.ResultCode, r.ResultString}]++
+			sent[r.SequenceNumber]++
+			if vals[r.SequenceNumber] == nil {
+				vals[r.SequenceNumber] = map[rv]bool{}
+			}
+			vals[r.SequenceNumber][rv{r.ResultCode, r.ResultString}] = true
 		}
 	}
-	got := map[rk]int{}
+	got := map[uint32]int{}
 	for _, r := range acks {
-		got[rk{r.SequenceNumber, r.ResultCode, r.ResultString}]++
-	}
-	for k, n := range want {
-		if got[k] != n {
-			return &Finding{"an ack result sent by the broker was reported to the ack hook a wrong number of times", "ackhook-count",
-				map[string]any{"seq": k.seq, "code": int(k.code), "sent": n, "reported": got[k]}}
+		got[r.SequenceNumber]++
+		if !vals[r.SequenceNumber][rv{r.ResultCode, r.ResultString}] {
+			return &Finding{"the ack hook reported a result (sequence number, code) the broker never sent", "ackhook-phantom", map[string]any{"seq": r.SequenceNumber, "code": int(r.ResultCode), "string": r.ResultString}}
 		}
 	}
-	for k, n := range got {
-		if want[k] == 0 {
-			return &Finding{"the ack hook reported a result the broker never sent", "ackhook-phantom", map[string]any{"seq": k.seq, "code": int(k.code), "reported": n}}
+	for seq, n := range sent {
+		if got[seq] < 1 || got[seq] > n {
+			return &Finding{"an ack result sent by the broker was reported to the ack hook a wrong number of times", "ackhook-count",
+				map[string]any{"seq": seq, "sent": n, "reported": got[seq]}}
 		}
 	}
 	return nil
